@@ -29,6 +29,35 @@ def optIs {α} [BEq α] (o : Option α) (v : α) : Bool :=
 
 /-! ### internal/lex -/
 
+/-- the ASCII letters and digits of the live `unicode.IsLetter` / `unicode.IsDigit` are A–Z a–z and 0–9: the runes the
+    lexer treats as structure (quote, colon, slash, brackets, operators, whitespace, backslash, `*`, `?`) are none of them -/
+theorem asciiLetters_ok :
+    Generated.asciiLetters = (List.range 128).filter (fun r => (65 ≤ r && r ≤ 90) || (97 ≤ r && r ≤ 122)) := by decide
+theorem asciiDigits_ok : Generated.asciiDigits = (List.range 128).filter (fun r => 48 ≤ r && r ≤ 57) := by decide
+
+/-- a class table agrees with the live tables on ASCII -/
+def Cls.agreesAscii (k : Cls) : Prop :=
+  ∀ r, r < 128 → k.isLetter r = Generated.asciiLetters.contains r ∧ k.isDigit r = Generated.asciiDigits.contains r
+
+/-- … then none of the structural runes is a word character (the hypotheses `quoteColonNotAlnum`, `slashNotAlnum`) -/
+theorem agreesAscii_structural (k : Cls) (h : k.agreesAscii) :
+    ∀ r ∈ [34, 39, 58, 47, 40, 41, 91, 93, 123, 125, 43, 45, 61, 62, 60, 126, 94, 32, 9, 13, 10, 92, 42, 63],
+      k.isAlnum r = false := by
+  intro r hr
+  have hlt : r < 128 := by
+    simp only [List.mem_cons, List.mem_nil_iff, or_false] at hr
+    omega
+  obtain ⟨hl, hd⟩ := h r hlt
+  simp only [Cls.isAlnum, hl, hd]
+  simp only [List.mem_cons, List.mem_nil_iff, or_false] at hr
+  rcases hr with rfl | rfl | rfl | rfl | rfl | rfl | rfl | rfl | rfl | rfl | rfl | rfl | rfl | rfl | rfl | rfl | rfl | rfl | rfl |
+    rfl | rfl | rfl | rfl | rfl <;> decide
+
+/-- the lexer's character-class predicates are the ones the model writes as `isAlnum`, `isWild`, `isWs`, `isEsc` -/
+theorem classFns_ok : Generated.classFns =
+    [("isAlphaNumeric", "r == '_' || unicode.IsLetter(r) || unicode.IsDigit(r)"), ("isWildcard", "r == '*' || r == '?'"),
+     ("isSpace", "r == ' ' || r == '\\t' || r == '\\r' || r == '\\n'"), ("isEscape", "r == '\\\\'")] := by decide
+
 theorem tokNums_ok : Generated.tokNums = TT.all.map (fun t => (t.name, t.num)) := by decide
 
 theorem terminals_ok : Generated.terminals = (TT.all.filter TT.isTerminal).map TT.name := by decide
